@@ -104,6 +104,8 @@ impl MemoryPool {
 
     /// Try to allocate memory
     pub fn try_allocate(&self, size: usize) -> Option<MemoryReservation<'_>> {
+        #[cfg(feature = "verif-hooks")]
+        crate::verif_hooks::yield_point("try_allocate.load");
         let mut current = self.used.load(Ordering::Relaxed);
         loop {
             let new_usage = current.checked_add(size)?;
@@ -111,6 +113,8 @@ impl MemoryPool {
                 return None;
             }
 
+            #[cfg(feature = "verif-hooks")]
+            crate::verif_hooks::yield_point("try_allocate.cas");
             match self.used.compare_exchange_weak(
                 current,
                 new_usage,
@@ -127,6 +131,8 @@ impl MemoryPool {
 
     /// Force allocate memory (may exceed limit)
     pub fn allocate(&self, size: usize) -> MemoryReservation<'_> {
+        #[cfg(feature = "verif-hooks")]
+        crate::verif_hooks::yield_point("allocate.add");
         self.used.fetch_add(size, Ordering::SeqCst);
         MemoryReservation { pool: self, size }
     }
@@ -147,6 +153,8 @@ impl MemoryPool {
     }
 
     fn release(&self, size: usize) {
+        #[cfg(feature = "verif-hooks")]
+        crate::verif_hooks::yield_point("release.sub");
         self.used.fetch_sub(size, Ordering::SeqCst);
     }
 }
@@ -165,6 +173,8 @@ impl<'a> MemoryReservation<'a> {
 
     /// Resize the reservation
     pub fn resize(&mut self, new_size: usize) {
+        #[cfg(feature = "verif-hooks")]
+        crate::verif_hooks::yield_point("resize.rmw");
         if new_size > self.size {
             let diff = new_size - self.size;
             self.pool.used.fetch_add(diff, Ordering::SeqCst);
